@@ -268,6 +268,17 @@ func c12ValidShard[E algebra.PrimeGroupElement[E, S], S algebra.PrimeFieldElemen
 	if !w.Equal(v) {
 		return errC12("re-constructed shard differs")
 	}
+	// independent of the constructor: the private share lifted to the group equals the public
+	// key share derived from the verification vector
+	group := algebra.StructureMustBeAs[algebra.PrimeGroup[E, S]](v.VerificationVector().Value().Module().BaseModule())
+	lifted, err := feldman.LiftShare(v.Share(), group.Generator())
+	if err != nil {
+		return err
+	}
+	pks, ok := v.PublicKeyShares().Get(v.Share().ID())
+	if !ok || !lifted.Equal(pks) {
+		return errC12("private share does not match the public data")
+	}
 	return nil
 }
 
